@@ -51,6 +51,10 @@ def scaling_probe(ctx, classes, n_schema, gen):
     want = 5 if ctx["tier"] == "quick" else 40       # classes
     order = list(range(n_schema))
     r.shuffle(order)
+    # at least two flexible classes without tagged fields of their own first (they take the unknown-tags shape)
+    pref = [i for i in order if getattr(classes[i], "__flexible__", False) and any(d.array for d in describe(classes[i]))
+            and not any(d.tag is not None for d in describe(classes[i]))][:2]
+    order = pref + [i for i in order if i not in set(pref)]
     for idx in order:
         if len(out) >= 3 * want:
             break
@@ -72,8 +76,26 @@ def scaling_probe(ctx, classes, n_schema, gen):
             continue
         if es[0] != "ok" or el[0] != "ok" or len(el[1]) < 4 * len(es[1]):
             continue
-        for shape, f in (("valid", lambda b: b), ("cut", lambda b: b[: len(b) // 2]),
-                         ("corrupt-tail", lambda b: b[:-3] + b"\xff\xff\xff")):
+        def uvar(n):
+            out = bytearray()
+            while True:
+                b = n & 0x7F
+                n >>= 7
+                out.append(b | (0x80 if n else 0))
+                if not n:
+                    return bytes(out)
+
+        def with_unknown_tags(b):
+            """a forward-compatible message: the (empty) top-level tagged section replaced by len/16 unknown, ascending,
+            zero-size tagged fields - large content followed by many unknown tags"""
+            k = max(8, len(b) // 16)
+            return b[:-1] + uvar(k) + b"".join(uvar(100000 + j) + b"\x00" for j in range(k))
+
+        shapes = [("valid", lambda b: b), ("cut", lambda b: b[: len(b) // 2]), ("corrupt-tail", lambda b: b[:-3] + b"\xff\xff\xff")]
+        if getattr(cls, "__flexible__", False) and es[1].endswith(b"\x00") and el[1].endswith(b"\x00") and not any(
+                d.tag is not None for d in describe(cls)):
+            shapes.append(("unknown-tags", with_unknown_tags))
+        for shape, f in shapes:
             ds, dl = f(es[1]), f(el[1])
             ts, tl = best(cls, ds), best(cls, dl)
             verdict = "super-linear" if (tl > 0.4 and tl > 32 * max(ts, 1e-4)) else "linear"
@@ -128,6 +150,11 @@ def run(ctx):
         viol.append({"kind": "property", "what": "decoding time grows faster than the input size", "failing_input_found": True,
                      "n_failing": len(slow), "cases": slow[:3]})
     prop_fail = [i for i, c in enumerate(cases) if not c["c10_ok"]]
+    from .. import envprobe
+    env_diffs, n_env = envprobe.decode_differences(classes, cases, sample=300 if ctx["tier"] == "quick" else 3000, rnd=gen.r)
+    if env_diffs:
+        viol.append({"kind": "property", "what": "the outcome of decoding malformed input depends on how the interpreter was started",
+                     "failing_input_found": True, "n_failing": len(env_diffs), "cases": env_diffs[:3]})
     if errors:
         viol.append({"kind": "correspondence", "what": "model evaluation failed", "detail": errors[:3]})
     if prop_fail:
@@ -150,7 +177,7 @@ def run(ctx):
         "traces_validated_against_impl": len(cases) - len(failing),
         "rule": "per class one valid encoding mutated (truncate, overwrite, insert, delete, bit flip, length/continuation "
                 "bias, multi-byte, random bytes); non-trivial = differs from the valid encoding; distinct by (class, bytes)",
-        "time_scaling_probes": scaling, "mutation_kinds": kinds, "distribution": _codec.distribution(cases, classes),
+        "time_scaling_probes": scaling, "decodes_repeated_under_other_interpreter_settings": n_env, "mutation_kinds": kinds, "distribution": _codec.distribution(cases, classes),
         "samples": [_codec.describe_case(classes, c) for c in cases[:2]],
         "property_failures_on_implementation": len(prop_fail), "correspondence_disagreements": len(failing),
     }
